@@ -33,8 +33,11 @@ func runBubble(out *Outcome, fn func()) {
 	// the running goroutine at a point that depends on real time
 	runtime.GC() // no collection may be in flight when the run starts
 	gcOld := debug.SetGCPercent(-1)
+	// ... except as a safety valve: a run that produces gigabytes of garbage is collected
+	memOld := debug.SetMemoryLimit(3 << 30)
 	defer func() {
 		debug.SetGCPercent(gcOld)
+		debug.SetMemoryLimit(memOld)
 		runtime.GC()
 	}()
 	synctest.Test(theT, func(t *testing_T) {
